@@ -160,6 +160,86 @@ def run_engine(ctx):
         key = x["e"]["t"] if x["e"]["t"] != "line" else ("S:" if x["e"].get("haspfx") else "") + x["e"].get("cmd", "")
         res["cmds"][key] = res["cmds"].get(key, 0) + 1
 
+    # 3a. wall-clock independence (C01): the same histories in a child process whose clock is shifted.
+    # The standard library's time.Now is replaced (go -overlay on GOROOT/src/time/time.go) by a copy that adds
+    # VERIF_TIME_OFFSET_S seconds; entries carry their own timestamps, so the recorded steps must be identical.
+    t0 = time.time()
+    goroot = vlib.run(["go", "env", "GOROOT"], env=vlib._env())[1].strip()
+    tsrc_path = os.path.join(goroot, "src", "time", "time.go")
+    anchor = "func Now() Time {\n\tsec, nsec, mono := now()"
+    try:
+        tsrc = open(tsrc_path).read()
+    except OSError:
+        tsrc = ""
+    if anchor not in tsrc:
+        raise vlib.Inconclusive("cannot patch time.Now of this Go toolchain (%s)" % tsrc_path)
+    tsrc = tsrc.replace(anchor, """var verifOffset = func() int64 {
+	v, ok := syscall.Getenv("VERIF_TIME_OFFSET_S")
+	if !ok {
+		return 0
+	}
+	var n int64
+	neg := false
+	for i := 0; i < len(v); i++ {
+		if v[i] == '-' {
+			neg = true
+			continue
+		}
+		n = n*10 + int64(v[i]-'0')
+	}
+	if neg {
+		n = -n
+	}
+	return n
+}()
+
+func Now() Time {
+	sec, nsec, mono := now()
+	sec += verifOffset""")
+    if '"syscall"' not in tsrc:
+        tsrc = tsrc.replace("package time\n", 'package time\n\nimport "syscall"\n', 1)
+    tpatched = os.path.join(ctx.scratch, "time_patched.go")
+    with open(tpatched, "w") as fh:
+        fh.write(tsrc)
+    with open(ov) as fh:
+        ovj = json.load(fh)
+    ovj["Replace"][tsrc_path] = tpatched
+    ov_shift = os.path.join(ctx.scratch, "overlay-shift.json")
+    with open(ov_shift, "w") as fh:
+        json.dump(ovj, fh)
+    res["clock_shift"] = {"offsets_s": [], "records_compared": 0}
+    index = {(x["k"], x["h"], x["i"]): x for x in recs if x["k"] in ("step", "snap")}
+    for off in ([4000] if ctx.tier == "quick" else [4000, -4000, 90000]):
+        strace = os.path.join(ctx.scratch, "irctrace-shift%d.ndjson" % off)
+        rc, out = ctx.go_test(".", ov_shift, "^TestVerifIRC$", timeout=1500, env={
+            "VERIF_IRC_OUT": strace, "VERIF_IRC_IN": prog_file, "VERIF_IRC_GEN": gen, "VERIF_IRC_LEN": glen,
+            "VERIF_IRC_K": 1, "VERIF_IRC_SNAP": 1, "VERIF_IRC_FANOUT": 0, "VERIF_TIME_OFFSET_S": off})
+        if rc != 0 or not os.path.exists(strace):
+            raise vlib.Inconclusive("clock-shifted IRC harness failed (rc=%s):\n%s" % (rc, out[-3000:]))
+        srecs = vlib.read_ndjson(strace)
+        if not srecs or srecs[-1]["k"] != "end":
+            raise vlib.Inconclusive("clock-shifted IRC harness did not finish its trace")
+        res["clock_shift"]["offsets_s"].append(off)
+        seen_h = set()
+        for y in srecs:
+            if y["k"] not in ("step", "snap"):
+                continue
+            x = index.get((y["k"], y["h"], y["i"]))
+            res["clock_shift"]["records_compared"] += 1
+            same = x is not None and x["e"]["data"] == y["e"]["data"] and x["out"] == y["out"] and \
+                x["post"] == y["post"] and x["panic"] == y["panic"]
+            if not same and y["h"] not in seen_h:
+                seen_h.add(y["h"])      # the first diverging step of a history
+                what = "history missing in the reference run" if x is None else \
+                    "with the clock shifted by %+d s the step differs in %s" % (off, [f for f in ("out", "post", "panic")
+                                                                                     if x[f] != y[f]])
+                res["fail"].append({"prop": "C01", "pred": "ClockIndependent", "h": y["h"], "i": y["i"],
+                                    "data": y["e"].get("data", ""), "cmd": y["e"].get("cmd", ""), "t": y["e"]["t"],
+                                    "server": bool(y["e"].get("haspfx")), "det": what, "snap": "", "snapat": 0, "lines": "",
+                                    "panics": "", "view": "", "rids": "",
+                                    "program": [z["e"] for z in srecs if z["k"] == "step" and z["h"] == y["h"] and z["i"] <= y["i"]]})
+    res["clock_shift"]["wall_s"] = round(time.time() - t0, 1)
+
     # 3b. transition cover of the bounded model, replayed on the real server
     t0 = time.time()
     re_ = ctx.tlc("IRCMC", cfg=EDGECFG[ctx.tier], workers=1, timeout=1800, name="edges", heap="8g")
@@ -297,18 +377,23 @@ def get_engine(ctx):
     lock = open(os.path.join(CACHE, "irc-%s.lock" % key), "w")
     fcntl.flock(lock, fcntl.LOCK_EX)
     try:
-        if os.path.exists(path) and time.time() - os.path.getmtime(path) < 3600 and not os.environ.get("VERIF_NOCACHE"):
+        fresh = False
+        try:
+            fresh = time.time() - os.path.getmtime(path) < 3600
+        except OSError:
+            pass
+        if fresh and not os.environ.get("VERIF_NOCACHE"):
             with open(path) as fh:
                 res = json.load(fh)
             res["cached"] = True
             return res
         for f in os.listdir(CACHE):
-            if f.startswith("irc-") and f != os.path.basename(lock.name) and \
-                    time.time() - os.path.getmtime(os.path.join(CACHE, f)) > 7200:
-                try:
+            try:    # other check processes clean up concurrently
+                if f.startswith("irc-") and f != os.path.basename(lock.name) and \
+                        time.time() - os.path.getmtime(os.path.join(CACHE, f)) > 7200:
                     os.unlink(os.path.join(CACHE, f))
-                except OSError:
-                    pass
+            except OSError:
+                pass
         res = run_engine(ctx)
         res["cached"] = False
         with open(path + ".tmp", "w") as fh:
@@ -384,7 +469,7 @@ def report(ctx, pid, extra_note=None):
         if sig in seen:
             continue
         seen.add(sig)
-        detail = {"ReplyIdsArePositions": f.get("rids", ""), "ExpireExact": f["panics"], "PublicViewMatchesState": f.get("view", ""), "ReplicasAgree": f["det"], "SaveLoadInvisible": "cut after entry %s: %s" % (f["snapat"], f["snap"]),
+        detail = {"ClockIndependent": f["det"], "ReplyIdsArePositions": f.get("rids", ""), "ExpireExact": f["panics"], "PublicViewMatchesState": f.get("view", ""), "ReplicasAgree": f["det"], "SaveLoadInvisible": "cut after entry %s: %s" % (f["snapat"], f["snap"]),
                   "OneLine": f["lines"], "NoPanic": f["panics"]}.get(f["pred"], "")
         what = "%s false after entry %d of history %d: %r %s" % (f["pred"], f["i"], f["h"], f["data"][:80], detail[:300])
         ctx.violation(sig, what, {"program": f["program"], "how": "VERIF_IRC_IN=<file with {\"prog\": program}> go test -run TestVerifIRC (see checks/irc_common.py)"})
@@ -405,6 +490,7 @@ def report(ctx, pid, extra_note=None):
     ctx.cov["model_programs_replayed"] = res["tlc"]["sim"]["programs"] + res["scenarios"]
     ctx.cov["model_transitions_replayed"] = res.get("model_transitions_replayed", 0)
     ctx.cov["fanout_probes_from_reached_states"] = res.get("fanout_probes", 0)
+    ctx.cov["clock_shifted_replica"] = res.get("clock_shift", {})
     ctx.cov["tlc_runs"] = res["tlc"]
     ctx.cov["commands_exercised"] = res["cmds"]
     ctx.cov["engine_cached"] = res["cached"]
